@@ -115,7 +115,7 @@ def run(ctx) -> None:
         for fname in fault_names:
             for pos in ("before", "between", "after", "other-stream", "other-context"):
                 for fe in fes:
-                    for hk in (["probe"], ["probe", "gross"], ["gross", "spike", "valid"]):
+                    for hk in (["probe"], ["probe", "gross"], ["gross", "spike", "valid"]) * ctx.pick(1, 5):
                         i += 1
                         if not ctx.mine(i * 7 + i // 8):
                             continue
